@@ -639,6 +639,8 @@ class Gen:
         op = self.mk("convert", conv=c, h=h.name, outs=[self.new_h() for _ in range(n)])
         if spec[4]:
             op["shift"] = self.r.choice([None, 0, 1, 2])
+        if spec[6] and self.r.random() < 0.4:
+            op["rbm"] = self.r.choice([False, False, True])  # the non-default raise_bad_mode
         return op
 
     # ---- algorithms
@@ -1097,6 +1099,27 @@ class FileGen(Gen):
         a = self.new_h()
         return [self.mk("map.get_list", h=h.name, key=key, out=a), self.mk("list.col_arith", h=a, col=col, opr=opr, v=v)]
 
+    def p_retempo_rewrite(self):
+        """write, change the tempo values of the chart IN PLACE (same list objects, same frames), write again: the second
+        file must denote the chart as it is now (state kept from the first write may not leak into the second)"""
+        hs = self._writable_handles()
+        if not hs:
+            return None
+        h = self.r.choice(hs)
+        k = self.r.choice([2, 2, 0.5])
+        ops = [self.io_write_op(h.game, h.name, self.new_path(h.game), first=True, faults=False)]
+        n = len(h.obj.maps) if h.kind == "mapset" else 1
+        for i in range(n):
+            m = h.name
+            if h.kind == "mapset":
+                m = self.new_h()
+                ops.append(self.mk("mapset.get_map", h=h.name, i=i, out=m))
+            a = self.new_h()
+            ops.append(self.mk("map.get_list", h=m, key="bpms", out=a))
+            ops.append(self.mk("list.col_arith", h=a, col="bpm", opr="*", v=k))
+        ops.append(self.io_write_op(h.game, h.name, self.new_path(h.game), first=True, faults=False))
+        return ops
+
     def p_stack_time(self):
         ss = self._fresh_stackers("map")
         if not ss:
@@ -1157,6 +1180,8 @@ class GenC06(FileGen):
         op = self.mk("convert", conv=c, h=h.name, outs=[self.new_h() for _ in range(n)])
         if spec[4]:
             op["shift"] = self.r.choice([None, 0, 1, 2])
+        if spec[6] and self.r.random() < 0.4:
+            op["rbm"] = self.r.choice([False, False, True])  # the non-default raise_bad_mode
         return op
 
 
@@ -1283,7 +1308,7 @@ class GenC03(GridMixin, FileGen):
     reread_prop = "C03"
     write_games = ("sm",)
     read_games = ("sm",)
-    table = dict(sm_new=10, install_read=5, src_new=5, convert=8, write=12, reread=5, chain=6, rate=4, map_deepcopy=1)
+    table = dict(sm_new=10, install_read=5, src_new=5, convert=8, write=12, reread=5, chain=6, rate=4, map_deepcopy=1, retempo_rewrite=4)
 
     def gen_doc(self, game):
         from .gen_files import gen_sm_doc, gen_sm_fmt
@@ -1352,7 +1377,7 @@ class GenC05(GridMixin, FileGen):
     game = "bms"
     write_games = ("bms",)
     read_games = ("bms",)
-    table = dict(bms_new=12, install_read=4, write=12, reread=4, chain=4, map_deepcopy=1, rate=2, bms_many_bpms=0.12)
+    table = dict(bms_new=12, install_read=4, write=12, reread=4, chain=4, map_deepcopy=1, rate=2, bms_many_bpms=0.12, retempo_rewrite=3)
     LAYOUT_COLS = {"BMS": 14, "BME": 16, "PMS": 9, "PMS_BME": 18, "PMS_5B": 5}
 
     def setup(self):
@@ -1540,6 +1565,14 @@ class GenC09(FileGen):
             if tg == "bms":
                 w["layout"] = "BME"
             ops.append(w)
+            if self.r.random() < 0.35:
+                # the same converted chart serialised a second time (write() then write_file(), or twice to two paths):
+                # every file it yields must denote the source
+                w2 = self.io_write_op(tg, o, self.new_path(tg), first=True)
+                w2["prop"] = "C09"
+                if tg == "bms":
+                    w2["layout"] = "BME"
+                ops.append(w2)
         ops.append(self.mk("drop", hs=[src] + outs))
         return ops
 
